@@ -31,8 +31,8 @@ def run(ctx):
         "the seven sibling routers (bsc, heco, hsc, msc, pixiechain, polygon/bor, bytom) are tied by (T) the clone table of extract/evmclones "
         "(their three functions equal the reference's after normalisation) and (C) executing their real verifyFrom*Tx on a mirror of the eth "
         "light-client state (their stores' own records written by the harness) for every deposit, with the eth verdict as expectation; "
-        "their header stores themselves (C29) are not exercised; quorum (validator-signed header supplied with the deposit) reuses eth's "
-        "VerifyMerkleProof / CheckProofResult and is not driven",
+        "their header stores themselves (C29) are not exercised; quorum: only verifyFromQuorumTx (proof check against the supplied header's "
+        "root) is modelled and executed, its validator-signature header check is C29/C30",
     ]
     ctx.cov["trusted_base"] += ["extract/evmclones (go/parser clone check of the sibling routers)", "harness heth/evm + drv_eth (correspondence check)", "Lean compiler for the driver",
                                 "go-ethereum v1.9.15 trie / rlp / crypto (oracles and property evaluation)",
